@@ -60,15 +60,26 @@ func (s *P2PStore[H]) Head(ctx context.Context, _ ...goheader.HeadOption[H]) (H,
 }
 
 func (s *P2PStore[H]) Get(ctx context.Context, hash goheader.Hash) (H, error) {
+	s.mu.Lock()
+	defer s.mu.Unlock()
+	for _, it := range s.items {
+		if string(it.Hash()) == string(hash) {
+			return it, nil
+		}
+	}
 	var zero H
 	return zero, errNotFound
 }
 
+// GetRangeByHeight returns the items in (from.Height(), to), as go-header's store does.
 func (s *P2PStore[H]) GetRangeByHeight(ctx context.Context, from H, to uint64) ([]H, error) {
-	return nil, errNotFound
+	return s.GetRange(ctx, from.Height()+1, to)
 }
-func (s *P2PStore[H]) Init(context.Context, H) error                    { return nil }
-func (s *P2PStore[H]) Has(context.Context, goheader.Hash) (bool, error) { return false, nil }
+func (s *P2PStore[H]) Init(context.Context, H) error { return nil }
+func (s *P2PStore[H]) Has(ctx context.Context, hash goheader.Hash) (bool, error) {
+	_, err := s.Get(ctx, hash)
+	return err == nil, nil
+}
 func (s *P2PStore[H]) HasAt(ctx context.Context, h uint64) bool {
 	_, err := s.GetByHeight(ctx, h)
 	return err == nil
@@ -79,7 +90,16 @@ func (s *P2PStore[H]) Append(ctx context.Context, hs ...H) error {
 	}
 	return nil
 }
-func (s *P2PStore[H]) GetRange(context.Context, uint64, uint64) ([]H, error) { return nil, errNotFound }
+
+// GetRange returns the items with heights in [from, to).
+func (s *P2PStore[H]) GetRange(ctx context.Context, from, to uint64) ([]H, error) {
+	s.mu.Lock()
+	defer s.mu.Unlock()
+	if from < s.base || to > s.base+uint64(len(s.items)) || from >= to {
+		return nil, errNotFound
+	}
+	return append([]H(nil), s.items[from-s.base:to-s.base]...), nil
+}
 
 // Broadcaster records payloads handed to WriteToStoreAndBroadcast.
 type Broadcaster[T any] struct {
